@@ -198,7 +198,9 @@ class Scheduler:
         progress: Callable[[], Any] | None = None,
         progress_every: int = 5_000,
         stall_rounds: int = 6,
+        trace_funcs: set[str] | None = None,
     ) -> None:
+        self.trace_funcs = trace_funcs  # optional: only these function names of the traced files yield
         self.policy = policy
         self.clock = clock
         self.trace_files = trace_files or set()
@@ -263,7 +265,7 @@ class Scheduler:
                     pass
 
     def _global_trace(self, frame: Any, event: str, arg: Any) -> Any:
-        if frame.f_code.co_filename in self.trace_files:
+        if frame.f_code.co_filename in self.trace_files and (self.trace_funcs is None or frame.f_code.co_name in self.trace_funcs):
             return self._local_trace
         return None
 
